@@ -16,7 +16,7 @@ import (
 
 // C15 — a compiled expression never fails with a Go runtime error.
 
-const ruleC15 = "rapid: 4/5 syntactically valid but semantically unconstrained expressions (any expression in any operand, argument, predicate or path-start position; every axis incl. namespace::; every function in f(...) and zero-argument form with arities 0..3; variables; sequences), 1/5 token soup (1-10 tokens of the full vocabulary, brackets balanced with probability 3/4); only what Compile accepts is evaluated, on small documents (<= ~15 nodes) from any context node. enum (exhaustive): every known function applied to every argument combination over {number, one-letter string, six-letter string, multi-byte string, empty string, boolean, node-set, empty node-set} up to arity 3, every binary operator over every type pair, unary minus over every type. Oracle: Select (drained) and Evaluate (iterator drained) either complete or panic with a value that is an error but not a runtime.Error; Evaluate's result is bool, float64, string or *NodeIterator; termination is decided by the harness navigator's operation budget (2*10^7, confirmed with 4*10^7), never by wall clock: on documents of <= 16 nodes (legitimate cost there is < 10^6) running out of budget is non-termination; on the larger (wide) documents, where a nested expression legitimately costs n^k, the case is re-decided on two pruned copies of <= 16 nodes (one keeping the depth, one keeping all children of the document element) and is inconclusive if those terminate. Draining a non-node-set expression is capped at 10^4 results (a cap hit is not a violation). Non-trivial: accepted by Compile and contains a function call or mixes value types across an operator; distinct by (document, context, expression)."
+const ruleC15 = "rapid: 4/5 syntactically valid but semantically unconstrained expressions (any expression in any operand, argument, predicate or path-start position; every axis incl. namespace::; every function in f(...) and zero-argument form with arities 0..3; variables; sequences), 1/5 token soup (1-10 tokens of the full vocabulary, brackets balanced with probability 3/4); only what Compile accepts is evaluated, on small documents (<= ~15 nodes; one in four is drawn from the shapes wide / deep / chain of 25 levels / many attributes) from any context node. enum (exhaustive): every known function applied to every argument combination over {number, one-letter string, six-letter string, multi-byte string, empty string, boolean, node-set, empty node-set} up to arity 3, every binary operator over every type pair, unary minus over every type. Oracle: Select (drained) and Evaluate (iterator drained) either complete or panic with a value that is an error but not a runtime.Error; Evaluate's result is bool, float64, string or *NodeIterator; termination is decided by the harness navigator's operation budget (2*10^7, confirmed with 4*10^7), never by wall clock: on documents of <= 16 nodes (legitimate cost there is < 10^6) running out of budget is non-termination; on the larger (wide) documents, where a nested expression legitimately costs n^k, the case is re-decided on two pruned copies of <= 16 nodes (one keeping the depth, one keeping all children of the document element) and is inconclusive if those terminate. Draining a non-node-set expression is capped at 10^4 results (a cap hit is not a violation). Non-trivial: accepted by Compile and contains a function call or mixes value types across an operator; distinct by (document, context, expression)."
 
 var (
 	uC15Rapid = harness.NewUnit("C15", "rapid-unconstrained-expressions", ruleC15)
@@ -213,8 +213,11 @@ func TestC15Rapid(t *testing.T) {
 	journal := harness.OpenJournal()
 	runRapid(t, uC15Rapid, func(rt *rapid.T) {
 		o := c15Doc()
-		if rapid.IntRange(0, 9).Draw(rt, "wide") == 9 {
-			o.WideFan, o.MaxAttrs = 12, 1 // sibling positions of two digits
+		// mostly small documents; sometimes wide (sibling positions of two digits), deep or
+		// a chain of 25 levels (tables indexed by depth), many attributes
+		shape := "doc:regular"
+		if rapid.IntRange(0, 3).Draw(rt, "shaped") == 3 {
+			shape = xgen.Shape(rt, &o)
 		}
 		unicode := rapid.IntRange(0, 5).Draw(rt, "unicode") == 5
 		if unicode {
@@ -248,7 +251,7 @@ func TestC15Rapid(t *testing.T) {
 			uC15Rapid.Skip() // budget ran out on a large document: inconclusive
 			return
 		}
-		labels := []string{kind}
+		labels := []string{kind, shape}
 		if !info.accepted {
 			labels = append(labels, "rejected-by-compile")
 		} else {
